@@ -276,6 +276,30 @@ func TestSim(t *testing.T) {
 				res.Infra = "sub-test failed without a violation or a race report"
 			}
 		}
+		var extra []*RunResult
+		if sc.EnumDraw != "" && sc.EnumEvery > 0 && int(run/uint64(len(scs)))%sc.EnumEvery == 0 && res.Infra == "" {
+			extra = enumerateDraw(t, sc, res, tier, &sum)
+		}
+		for _, x := range extra {
+			// account for the enumerated runs like ordinary ones
+			sum.Runs++
+			sum.Steps += int64(x.Steps)
+			sum.SimTimeNs += x.SimTimeNs
+			for k, v := range x.Stats {
+				sum.Stats[k] += v
+			}
+			fps[x.SchedFP] = true
+			if x.NonTrivial {
+				ntfps[x.SchedFP+"/"+x.Digest] = true
+			}
+			for _, v := range x.Viol {
+				if knownSigs[v.Sig] || seenSig[v.Sig] {
+					continue
+				}
+				seenSig[v.Sig] = true
+				sum.Violations = append(sum.Violations, reportViolation(t, sc, x, v, tier, replayDir))
+			}
+		}
 		sum.Runs++
 		sum.Steps += int64(res.Steps)
 		sum.Tasks += int64(res.Tasks)
@@ -467,4 +491,44 @@ func replayMain(t *testing.T, enc *json.Encoder, path, tier string) {
 	}
 	o.DigestSame = res.Digest == rf.Digest
 	enc.Encode(o)
+}
+
+// enumerateDraw repeats a run with the named draw set to every value 1..N
+// (N = steps of the run with the draw at 0): systematic fault-point enumeration
+// for one schedule.
+func enumerateDraw(t *testing.T, sc *Scenario, base *RunResult, tier string, sum *workerSummary) []*RunResult {
+	pos, ok := base.Named[sc.EnumDraw]
+	if !ok || pos >= len(base.Tape) {
+		return nil
+	}
+	with := func(v int) []int {
+		g := append([]int(nil), base.Tape...)
+		g[pos] = v
+		return g
+	}
+	full := execRun(t, sc, simrt.NewReplayTape(with(0), base.Sched), base.Seed, base.Run, tier, false)
+	if full.Infra != "" {
+		return nil
+	}
+	n := full.Steps
+	limit := 400
+	if tier == "quick" {
+		limit = 150
+	}
+	stride := 1
+	if n > limit {
+		stride = (n + limit - 1) / limit
+	}
+	var out []*RunResult
+	out = append(out, full)
+	for k := 1; k <= n; k += stride {
+		r := execRun(t, sc, simrt.NewReplayTape(with(k), base.Sched), base.Seed, base.Run, tier, false)
+		out = append(out, r)
+		sum.Stats["enum.points"]++
+	}
+	sum.Stats["enum.schedules"]++
+	if stride == 1 {
+		sum.Stats["enum.schedules-complete"]++
+	}
+	return out
 }
